@@ -408,6 +408,7 @@ func propCases(prop string, g *Gen, n int) []*Case {
 			add(&Case{R: g.Tree(1 + g.r.intn(6)), Obs: obs, Oracles: []string{"C01"}})
 		}
 	case "C02":
+		g.SilentWrappers = true
 		for i := 0; i < n; i++ {
 			r := g.Tree(1 + g.r.intn(5))
 			refs := g.identityRefs(r, 3)
@@ -447,6 +448,18 @@ func propCases(prop string, g *Gen, n int) []*Case {
 	case "C06":
 		g.Hostile = true
 		obs := names("red-v", "red+v")
+		// a marker rune assembled from pieces: a truncated prefix of the marker's UTF-8 encoding at the
+		// end of a line / of a nested rendering, its continuation at the start of the next piece
+		for _, r := range []*R{
+			{Op: "new", S: []string{"\xe2\x80\n\xb9\na"}},
+			{Op: "new", S: []string{"x\xe2\x80\n\xba"}},
+			{Op: "wrap", Kids: []*R{{Op: "stdnew", S: []string{"c"}}}, S: []string{"\xe2\n\x80\xb9 b"}},
+			{Op: "newf", Fmt: []FP{{Kind: "err", Verb: "v", R: &R{Op: "new", S: []string{"\xe2\n"}}}, {Kind: "safestr", Verb: "s", S: "\x80\xb9a"}}},
+			{Op: "newf", Fmt: []FP{{Kind: "err", Verb: "v", R: &R{Op: "new", S: []string{"\xe2\x80\n"}}}, {Kind: "lit", S: "\xba"}}},
+			{Op: "hint", Kids: []*R{{Op: "new", S: []string{"m"}}}, S: []string{"\xe2\x80\n\xb9"}},
+		} {
+			add(&Case{R: r, Obs: obs, Oracles: []string{"C06wf"}})
+		}
 		for i := 0; i < n; i++ {
 			r := g.Tree(1 + g.r.intn(5))
 			hops := [][][]string{knowing1, {g.proc(1)}, {g.proc(2)}}
@@ -489,6 +502,13 @@ func propCases(prop string, g *Gen, n int) []*Case {
 					op = "secondary"
 				}
 				r = g.Wrapper(&R{Op: op, Kids: []*R{x, sec}}, 1)
+			case 2:
+				// nothing to annotate: WithSecondaryError(nil, x) is nil, whatever x is
+				if len(cases)%12 == 2 {
+					nilr := &R{Op: "secondary", Kids: []*R{{Op: "nil"}, g.richHidden()}}
+					add(&Case{R: nilr, Obs: names("nilness", "text"), Oracles: []string{"C07"}})
+					add(&Case{R: g.Wrapper(&R{Op: "secondary", Kids: []*R{{Op: "nil"}, g.richHidden()}}, 1), Obs: names("nilness", "text"), Oracles: []string{"C07"}})
+				}
 			case 5:
 				// an empty replacement message is still a replacement
 				h := g.richHidden()
@@ -746,6 +766,21 @@ func propCases(prop string, g *Gen, n int) []*Case {
 			add(&Case{R: r, Obs: obs, Oracles: []string{"C15"}, Hops: [][][]string{knowing1}})
 		}
 		add(&Case{R: &R{Op: "nil"}, Obs: obs, Oracles: []string{"C15"}})
+		// layers whose first safe detail begins with / consists of newlines: still one composition line each
+		for _, txt := range []string{"\nrange check failed", "\n", "\n\nx", "a\n", "line1\nline2"} {
+			lit := []FP{{Kind: "lit", S: txt}, {Kind: "safeint", Verb: "d", I: 7}}
+			for _, r := range []*R{
+				{Op: "newf", Fmt: lit},
+				{Op: "withmessagef", Kids: []*R{g.Tree(1)}, Fmt: lit},
+				{Op: "safedetails", Kids: []*R{g.Tree(1)}, Fmt: lit},
+				{Op: "wrap", Kids: []*R{{Op: "new", S: []string{txt}}}, S: []string{"ctx"}},
+			} {
+				if _, isNil := specText(r); isNil {
+					continue
+				}
+				add(&Case{R: r, Obs: obs, Oracles: []string{"C15"}, Hops: [][][]string{knowing1}})
+			}
+		}
 		for i := 0; i < n; i++ {
 			add(&Case{R: g.Tree(1 + g.r.intn(5)), Obs: obs, Oracles: []string{"C15"}, Hops: [][][]string{knowing1}})
 		}
